@@ -1065,8 +1065,25 @@ func ruleC09_8(c *Ctx, r *Rep) {
 					}
 				case *ssa.UnOp:
 					if al, isA := x.X.(*ssa.Alloc); isA && x.Op == token.MUL {
+						dominated := false
 						for _, st := range allocStores(al) {
 							chk(st.Val, d+1)
+							if instrDominates(st, x) {
+								dominated = true
+							}
+						}
+						// a local (a named result) read on a path on which nothing was assigned is its zero value: OK
+						if !dominated {
+							ok = false
+						}
+					}
+				case *ssa.Call:
+					// a module helper that picks the code: every one of its results
+					if h := x.Call.StaticCallee(); h != nil && c.inModule(h) && len(h.Blocks) > 0 && !c.EntShape().isGenerated(h) {
+						for _, ret := range returnsOf(h) {
+							if len(ret.Results) >= 1 {
+								chk(ret.Results[0], d+1)
+							}
 						}
 					}
 				}
@@ -1929,6 +1946,23 @@ func ruleC14_6(c *Ctx, r *Rep) {
 					ttl = true
 				}
 			}
+			// where the same statement stores a new ttl, the deadline is computed from that new value (not from the TTL
+			// the row had before the update)
+			if tm := s.Mut("ttl", "set"); len(tm) > 0 && tm[0].Arg != nil {
+				ts := sources(tm[0].Arg)
+				shared := false
+				for k := range ts {
+					lk := strings.ToLower(k)
+					if src[k] && !strings.HasPrefix(k, "const") && k != "nil" && (strings.Contains(lk, "ttl") || strings.Contains(lk, "expirationpolicy")) && !strings.HasPrefix(k, "param:") {
+						// the request's / the parameters' ttl, not the loaded row's column
+						if !(strings.HasPrefix(k, "field:TTL") && !ts["call:GetTtl"] && !hasPathSuffix(ts, "params.TTL")) {
+							shared = true
+						}
+					}
+				}
+				stale := src["field:TTL"] && !src["call:GetTtl"] && !hasPathSuffix(src, "params.TTL") && (ts["call:GetTtl"] || hasPathSuffix(ts, "params.TTL"))
+				r.Check("C14.6", "C14.6:expiry-from-the-new-ttl:"+keys[s], m.Pos, shared && !stale, "", "the statement stores a new ttl but computes expires_at from another value (the TTL the row had before): after raising the TTL the subscription is still swept after the old one")
+			}
 			r.Check("C14.6", "C14.6:expiry-from-ttl:"+keys[s], m.Pos, src["call:Now"] && ttl && !retention, "expires_at = now + expiration TTL", fmt.Sprintf("the subscription's expires_at is not computed as now + its expiration TTL alone (from-now=%v from-ttl=%v mixes-in-message-retention=%v): the expiry sweep removes a subscription whose TTL has not passed (or keeps it too long)", src["call:Now"], ttl, retention))
 		}
 	}
@@ -2344,4 +2378,332 @@ func foldDirection(h *ssa.Function) (isMax, isMin bool) {
 		}
 	}
 	return
+}
+
+// ---------------------------------------------------------------------------
+// C12.7: a snapshot exists exactly while its row exists — every lookup of snapshots (the exists-check of create, Get,
+// List, the seek's lookup, delete) selects by name / id / name prefix / page token only. A liveness condition added
+// to some of them (an expiry test on the read side) makes the name unusable: Create keeps answering AlreadyExists for
+// a snapshot that Get and List no longer show.
+func ruleC12_7(c *Ctx, r *Rep) {
+	keys := c.stmtKeys()
+	n := 0
+	for _, s := range c.EntShape().Stmts {
+		if s.Table != "snapshots" || (s.Kind != "select" && s.Kind != "delete") || c.testSupport(s.Fn) {
+			continue
+		}
+		n++
+		bad := ""
+		if unk, note := s.HasUnknownPred(); unk {
+			bad = "uninterpretable predicate (" + note + ")"
+		}
+		for _, a := range s.Atoms() {
+			if a.Kind != "atom" {
+				continue
+			}
+			if !(a.Col == "name" || a.Col == "id" || a.Col == "topic_id") {
+				bad = a.Col + " " + a.Op
+			}
+		}
+		r.Check("C12.7", "C12.7:snapshot-exists-while-row-exists:"+keys[s], s.Pos, bad == "", "", "a lookup of snapshots is narrowed by "+bad+": the sibling lookups (create's exists-check, Get, List, seek, delete) no longer agree on which snapshots exist — a name can answer AlreadyExists to Create and NotFound to Get")
+	}
+	r.Floor("C12.7", n, 4)
+}
+
+func hasPathSuffix(src map[string]bool, suffix string) bool {
+	for k := range src {
+		if strings.HasPrefix(k, "path:") && strings.HasSuffix(k, suffix) {
+			return true
+		}
+	}
+	return false
+}
+
+// ---------------------------------------------------------------------------
+// C16.5: an eager-loaded edge that was loaded WITH A FILTER may be nil even when the foreign key is required — the row
+// exists, the filter excluded it (`WithTopic(onlyLive)` on a subscription whose topic was deleted). Every dereference
+// of such an edge is under a nil test of it. (Unfiltered required edges are dereferenced freely today and stay so.)
+func ruleC16_5(c *Ctx, r *Rep) {
+	n, nEdges := 0, 0
+	for _, f := range c.Funcs {
+		pk := c.PkgOf(f)
+		if !(pk == "services" || pk == "actions") || c.testSupport(f) || c.EntShape().isGenerated(f) {
+			continue
+		}
+		for _, b := range f.Blocks {
+			for _, in := range b.Instrs {
+				fa, ok := in.(*ssa.FieldAddr)
+				if !ok {
+					continue
+				}
+				// fa.X = *(&entity.Edges.E)
+				ld, ok := fa.X.(*ssa.UnOp)
+				if !ok || ld.Op != token.MUL {
+					continue
+				}
+				ea, ok := ld.X.(*ssa.FieldAddr)
+				if !ok {
+					continue
+				}
+				eb, ok := ea.X.(*ssa.FieldAddr)
+				if !ok || fieldName(eb.X.Type(), eb.Field) != "Edges" {
+					continue
+				}
+				edge := fieldName(ea.X.Type(), ea.Field)
+				nEdges++
+				// which statement loaded the entity, and did it filter this edge?
+				filtered := false
+				for _, s := range c.EntShape().Stmts {
+					if s.Kind != "select" {
+						continue
+					}
+					loaded := false
+					for _, t := range s.Terms {
+						if dependsOnCall(eb.X, t.Call) {
+							loaded = true
+						}
+					}
+					if !loaded {
+						continue
+					}
+					for _, w := range s.Withs {
+						if w.Edge != edge {
+							continue
+						}
+						for _, nst := range w.Nested {
+							if len(nst.Where) > 0 {
+								filtered = true
+							}
+							if unk, _ := nst.HasUnknownPred(); unk {
+								filtered = true
+							}
+						}
+					}
+				}
+				if !filtered {
+					continue
+				}
+				n++
+				guarded := false
+				ek := valKey(ld)
+				for _, cd := range edgeConds(b) {
+					nc := normCond(cd.V, cd.Pol)
+					if bo, isB := nc.V.(*ssa.BinOp); isB && isNilConst(bo.Y) && valKey(bo.X) == ek && (bo.Op == token.NEQ) == nc.Pol {
+						guarded = true
+					}
+				}
+				r.Check("C16.5", fmt.Sprintf("C16.5:filtered-edge-deref:%s#%d@%s", edge, n, c.Key(top(f))), fa.Pos(), guarded, "", "the eager-loaded edge "+edge+" was loaded with a filter and is dereferenced without a nil test: for a row whose related row the filter excludes (a subscription whose topic was deleted) the handler panics, and a panic takes the server down")
+			}
+		}
+	}
+	r.OK("C16.5", "C16.5:edge-derefs-examined", token.NoPos, fmt.Sprintf("%d edge dereferences examined, %d of filtered edges", nEdges, n))
+	if nEdges < 3 {
+		r.Fail("C16.5", "C16.5:floor", token.NoPos, fmt.Sprintf("only %d edge dereferences found (≥3 expected)", nEdges))
+	}
+}
+
+// ---------------------------------------------------------------------------
+// C16.6: a Prometheus counter panics when asked to decrease ("counter cannot decrease in value"), and metric updates
+// run inside the request path (often in the commit hook, after the SQL commit). Every value added to a counter is the
+// conversion of an integer count (a length, a number of affected rows, a constant) — never a float computed from
+// request-controlled quantities such as a deadline in seconds, which a client can make negative.
+func ruleC16_6(c *Ctx, r *Rep) {
+	n := 0
+	for _, f := range c.Funcs {
+		pk := c.PkgOf(f)
+		if !(pk == "services" || pk == "actions" || pk == "faults" || pk == "grpc") || c.testSupport(f) || c.EntShape().isGenerated(f) {
+			continue
+		}
+		for _, b := range f.Blocks {
+			for _, in := range b.Instrs {
+				ci, ok := in.(ssa.CallInstruction)
+				if !ok || !ci.Common().IsInvoke() || ci.Common().Method.Name() != "Add" || len(ci.Common().Args) != 1 {
+					continue
+				}
+				nm := namedOf(ci.Common().Value.Type())
+				if nm == nil || nm.Obj().Pkg() == nil || !strings.HasSuffix(nm.Obj().Pkg().Path(), "client_golang/prometheus") || nm.Obj().Name() != "Counter" {
+					continue
+				}
+				n++
+				arg := ci.Common().Args[0]
+				ok2 := false
+				switch x := arg.(type) {
+				case *ssa.Const:
+					if x.Value != nil && constant.Sign(x.Value) >= 0 {
+						ok2 = true
+					}
+				case *ssa.Convert:
+					if bt, isB := x.X.Type().Underlying().(*types.Basic); isB && bt.Info()&types.IsInteger != 0 {
+						ok2 = true // a count
+					}
+				}
+				r.Check("C16.6", fmt.Sprintf("C16.6:counter-add-is-a-count#%d@%s", n, c.Key(top(f))), ci.Pos(), ok2, "", "a Prometheus counter is increased by a computed floating-point value rather than a count: a request value that makes it negative (a negative deadline) panics in Counter.Add — in the request path, after the commit — and takes the server down")
+			}
+		}
+	}
+	r.Floor("C16.6", n, 10)
+}
+
+// ---------------------------------------------------------------------------
+// C17.5: the documented defaults fill in for ZERO durations, not only for absent ones: where a handler stores the
+// expiration TTL or the message retention from the request, the value passes a comparison with 0 that selects the
+// default. (A helper that tests the *message* for nil lets an explicit `0s` through: stored as 0, expires now.)
+func ruleC17_5(c *Ctx, r *Rep) {
+	for _, hk := range []string{"(*services.subscriberServer).CreateSubscription", "(*services.subscriberServer).UpdateSubscription"} {
+		h := r.Anchor("C17.5", hk)
+		if h == nil {
+			continue
+		}
+		var fns []*ssa.Function
+		seen := map[*ssa.Function]bool{}
+		var add func(f *ssa.Function)
+		add = func(f *ssa.Function) {
+			if seen[f] {
+				return
+			}
+			seen[f] = true
+			fns = append(fns, f)
+			for _, a := range f.AnonFuncs {
+				add(a)
+			}
+		}
+		for _, f := range c.opFuncs(h) {
+			add(f)
+		}
+		zeroTests := map[string]bool{}
+		for _, f := range fns {
+			for _, b := range f.Blocks {
+				if len(b.Instrs) == 0 {
+					continue
+				}
+				iff, ok := b.Instrs[len(b.Instrs)-1].(*ssa.If)
+				if !ok {
+					continue
+				}
+				bo, ok := iff.Cond.(*ssa.BinOp)
+				if !ok || !(bo.Op == token.EQL || bo.Op == token.NEQ || bo.Op == token.LEQ || bo.Op == token.GTR) {
+					continue
+				}
+				if z, isZ := constInt(bo.Y); !isZ || z != 0 {
+					continue
+				}
+				if bt, isB := bo.X.Type().Underlying().(*types.Basic); !isB || bt.Info()&types.IsInteger == 0 {
+					continue
+				}
+				src := sources(bo.X)
+				// the compared value is itself a field: that field decides (a parameter struct holds both durations)
+				if u, isU := resolve(bo.X).(*ssa.UnOp); isU && u.Op == token.MUL {
+					if fa, isFA := u.X.(*ssa.FieldAddr); isFA {
+						switch fieldName(fa.X.Type(), fa.Field) {
+						case "TTL":
+							zeroTests["ttl"] = true
+							continue
+						case "MessageTTL":
+							zeroTests["retention"] = true
+							continue
+						}
+					}
+				}
+				switch {
+				case src["field:MessageRetentionDuration"] || src["call:GetMessageRetentionDuration"] || src["field:MessageTTL"]:
+					zeroTests["retention"] = true
+				case src["field:ExpirationPolicy"] || src["call:GetExpirationPolicy"] || src["call:GetTtl"] || src["field:TTL"]:
+					zeroTests["ttl"] = true
+				}
+			}
+		}
+		for _, k := range []string{"ttl", "retention"} {
+			r.Check("C17.5", "C17.5:zero-means-default:"+k+"@"+hk, h.Pos(), zeroTests[k], "", "the handler stores the "+k+" from the request without comparing it with zero: an explicit zero duration (`0s`) is stored as it is instead of the documented default — the subscription expires at once / retains nothing")
+		}
+	}
+}
+
+// C17.3 (codec, writer side): the stored text of an interval is the exact duration: Interval.Value hands the
+// duration's own String() on, with no rounding or truncation on the way (sub-microsecond backoffs would be stored as
+// something else than was set, a 400 ns minimum backoff as 0 = unset).
+func ruleC17_3value(c *Ctx, r *Rep) {
+	fn := r.Anchor("C17.3", "(internal/sqltypes.Interval).Value")
+	if fn == nil {
+		return
+	}
+	bad := ""
+	for _, g := range c.opFuncs(fn) {
+		for _, ci := range callsIn(g, true, func(cal *ssa.Function, _ ssa.CallInstruction) bool { return true }) {
+			cal := ci.Common().StaticCallee()
+			if cal != nil && fnPkgPath(cal) == "time" && in(cal.Name(), "Round", "Truncate") {
+				bad = cal.Name()
+			}
+		}
+	}
+	r.Check("C17.3", "C17.3:value-is-exact", fn.Pos(), bad == "", "", "Interval.Value rounds the duration ("+bad+") before writing it: what is stored differs from what was set and from what Create echoed")
+}
+
+// C18.8: the parameters of an intercepted call are computed from the message at hand: the extraction reads no
+// package-level state besides the map pool (a name cache keyed by the short field name hands one request type the
+// full names of another).
+func ruleC18_8(c *Ctx, r *Rep) {
+	fn := r.Anchor("C18.8", "grpc.paramsFromProtoMessage")
+	if fn == nil {
+		return
+	}
+	bad := ""
+	var pos token.Pos = fn.Pos()
+	var scan func(f *ssa.Function)
+	seen := map[*ssa.Function]bool{}
+	scan = func(f *ssa.Function) {
+		if seen[f] {
+			return
+		}
+		seen[f] = true
+		for _, b := range f.Blocks {
+			for _, in := range b.Instrs {
+				for _, op := range in.Operands(nil) {
+					if g, isG := (*op).(*ssa.Global); isG && g.Pkg != nil && strings.HasPrefix(g.Pkg.Pkg.Path(), modPath) && g.Name() != "paramsPool" {
+						bad, pos = g.Name(), in.Pos()
+					}
+				}
+			}
+		}
+		for _, a := range f.AnonFuncs {
+			scan(a)
+		}
+	}
+	for _, g := range c.opFuncs(fn) {
+		scan(g)
+	}
+	r.Check("C18.8", "C18.8:parameters-from-the-message-at-hand", pos, bad == "", "", "the request-to-parameter extraction reads the package-level variable "+bad+": what one request type left there is handed to another (a fault selected by a field's full name never matches)")
+}
+
+// C19.2 (time rendering): the envelope's publishTime carries its zone: the layout has a zone verb, or the time is
+// converted to UTC before a layout with a literal Z is applied.
+func ruleC19_2format(c *Ctx, r *Rep) {
+	fn := r.Anchor("C19.2", "(*actions.httpPushStreamConn).Send")
+	if fn == nil {
+		return
+	}
+	n := 0
+	for _, g := range c.opFuncs(fn) {
+		for _, ci := range callsIn(g, true, func(cal *ssa.Function, _ ssa.CallInstruction) bool {
+			return fnPkgPath(cal) == "time" && cal.Name() == "Format"
+		}) {
+			if !sources(ci.Common().Args[0])["field:PublishedAt"] {
+				continue
+			}
+			n++
+			layout, isS := constString(ci.Common().Args[1])
+			ok := false
+			if isS {
+				hasZone := strings.Contains(layout, "Z07") || strings.Contains(layout, "-07") || strings.Contains(layout, "MST")
+				utc := false
+				if call, isC := resolve(ci.Common().Args[0]).(*ssa.Call); isC && call.Call.StaticCallee() != nil && call.Call.StaticCallee().Name() == "UTC" {
+					utc = true
+				}
+				ok = hasZone || utc
+			}
+			r.Check("C19.2", fmt.Sprintf("C19.2:publish-time-carries-its-zone#%d", n), ci.Pos(), ok, "", "the publish time is rendered with a layout that has no zone verb (a literal Z) without converting it to UTC first: on a server whose local zone is not UTC the envelope's publishTime is off by the zone offset")
+		}
+	}
+	if n == 0 {
+		r.Undecided("C19.2", "C19.2:publish-time-carries-its-zone", fn.Pos(), "the rendering of the publish time was not found")
+	}
 }
